@@ -25,3 +25,68 @@ def summarize_cfg(case):
     c = case.get("cfg", {})
     return dict(cfg=c, frames=case.get("frames"), content=case.get("content"),
                 **{k: case[k] for k in ("twopass", "pat", "stride_pad", "pad_fill", "scribble", "realloc", "prefill", "ptslist", "pts") if k in case})
+
+
+def first_difference(ra, rb):
+    """compare everything the application observes from two completed runs; None if identical"""
+    pa, pb = ra.packets(), rb.packets()
+    if len(pa) != len(pb):
+        return "packet count %d vs %d" % (len(pa), len(pb))
+    for k, ((ea, ba), (eb, bb)) in enumerate(zip(pa, pb)):
+        for f in ("pts", "dts", "pic_type", "flags", "qp", "size"):
+            if ea[f] != eb[f]:
+                return "packet %d field %s: %s vs %s" % (k, f, ea[f], eb[f])
+        if ba != bb:
+            i = next(i for i in range(min(len(ba), len(bb))) if ba[i] != bb[i])
+            return "packet %d bytes differ at offset %d of %d" % (k, i, len(ba))
+    xa = sorted(ra.recons(), key=lambda x: x[0]["pts"])
+    xb = sorted(rb.recons(), key=lambda x: x[0]["pts"])
+    if len(xa) != len(xb):
+        return "recon count %d vs %d" % (len(xa), len(xb))
+    for (ea, ba), (eb, bb) in zip(xa, xb):
+        if ea["pts"] != eb["pts"]:
+            return "recon pts %d vs %d" % (ea["pts"], eb["pts"])
+        if ba != bb:
+            return "recon picture pts %d differs" % ea["pts"]
+    return None
+
+
+def run_status(r):
+    """'ok' | 'rejected' | 'hang:<where>' | 'crash' | 'nojson'"""
+    if r.hang:
+        return "hang:%s:%s" % (r.hang.get("hang"), r.hang.get("where"))
+    if r.crash:
+        return "crash"
+    if not r.json_ok:
+        return "nojson"
+    if not r.accepted():
+        return "rejected"
+    return "ok"
+
+
+def differential(case, variants_of, label, variant="rel", timeout=240, env_of=None, pid="Cxx", need_base_ok=True):
+    """Run base case and each variant case; returns (violations, statuses, results) — caller cleans up.
+    variants_of: list of (name, case) ; first entry is the reference."""
+    import svt as _svt
+    results = []
+    for name, c in variants_of:
+        env = env_of(name) if env_of else None
+        results.append((name, _svt.run_encode(c, variant, timeout=timeout, env=env)))
+    base_name, base = results[0]
+    st0 = run_status(base)
+    viol = []
+    statuses = {base_name: st0}
+    for name, r in results[1:]:
+        s = run_status(r)
+        statuses[name] = s
+        if st0 != "ok" or s != "ok":
+            if st0 == "ok" and s != "ok" or st0 != "ok" and s == "ok":
+                # one side fails where the other succeeds: that IS a dependence on the varied dimension,
+                # but crashes/hangs are C11's subject; report as status divergence
+                if (s == "rejected") != (st0 == "rejected"):
+                    viol.append(dict(key="%s|accept-diverges|%s" % (pid, label), what="%s: %s is %s but %s is %s" % (label, base_name, st0, name, s)))
+            continue
+        d = first_difference(base, r)
+        if d:
+            viol.append(dict(key="%s|output-differs|%s" % (pid, label), what="%s vs %s: %s" % (base_name, name, d)))
+    return viol, statuses, results
